@@ -175,6 +175,8 @@ func main() {
 	}
 }
 
+var knownFailing = map[string]bool{}
+
 func runObligations(p *Program, sv *Solver, results []*FuncResult, prop string, workers int) []*oblOutcome {
 	var outs []*oblOutcome
 	for _, r := range results {
@@ -203,7 +205,8 @@ func runObligations(p *Program, sv *Solver, results []*FuncResult, prop string, 
 					continue
 				}
 				q := p.assembleQuery(oc.Func, oc.Obl, true)
-				oc.Res = sv.solve(oc.Obl.Name, q, oc.Obl.Cover)
+				// listed known findings are expected to fail: give them a short budget
+				oc.Res = sv.solve(oc.Obl.Name, q, oc.Obl.Cover || knownFailing[oc.Obl.Name])
 				switch {
 				case oc.Obl.Cover && oc.Res.Status == "unsat":
 					oc.Status = "vacuous"
@@ -305,8 +308,13 @@ func checkProperty(p *Program, prop, tier string, timeoutS, workers int, start t
 		sv.useCache = true
 		sv.cacheDir = filepath.Join(p.verif, ".cache", "results")
 	}
-	outs := runObligations(p, sv, results, prop, workers)
 	findings := readFindings(filepath.Join(p.verif, "known_findings.txt"))
+	for _, f := range findings {
+		if f.kind == "finding" && f.prop == prop {
+			knownFailing[f.obligation] = true
+		}
+	}
+	outs := runObligations(p, sv, results, prop, workers)
 	replayDir := filepath.Join(p.verif, "replays", prop)
 	os.RemoveAll(replayDir)
 	nObl, nDis, nCover, nVac := 0, 0, 0, 0
